@@ -736,6 +736,34 @@ PAR_CALLS = []
 # ------------------------------------------------------------------------------------------------
 # PYTHONHASHSEED: iteration order of sets of strings is chosen by the solver
 
+def make_nondet_hash(env):
+    """builtin `hash` inside the mabwiser modules: the hash of anything that contains a str is an arbitrary integer, fresh
+    for every call (two runs of the same scenario stand for two interpreters with different PYTHONHASHSEED); other
+    objects hash deterministically (symbolic numbers through an uninterpreted function)"""
+    import builtins
+    counter = [0]
+
+    def leaves(o, acc):
+        if isinstance(o, (tuple, list, frozenset)):
+            for x in o:
+                leaves(x, acc)
+        else:
+            acc.append(o)
+        return acc
+
+    def sx_hash(obj):
+        ls = leaves(obj, [])
+        if any(isinstance(x, (str, bytes)) for x in ls):
+            counter[0] += 1
+            return env.integer('pyhash%d' % counter[0], -2 ** 63, 2 ** 63 - 1)
+        if any(isinstance(x, (SV, SB)) for x in ls):
+            ts = [_arg(x) if isinstance(x, (SV, SB, int, float, np.integer, np.floating)) else z3.RealVal(builtins.hash(x) % 1000003)
+                  for x in ls]
+            return SV(uf('pyhash_det%d' % len(ts), *([R] * len(ts) + [I]))(*ts))
+        return builtins.hash(obj)
+    return sx_hash
+
+
 def make_nondet_set(env):
     import itertools as _it
     counter = [0]
